@@ -938,10 +938,14 @@ static bool getExpressionRange(const Token* expr, MathLib::bigint* minvalue, Mat
             if (maxvalue)
                 *maxvalue = lhsHasKnownRange ? vals[1] : vals[3];
         } else {
+            // both operands have a known range: for non-negative operands the result is
+            // at most the smaller maximum ("maxA & maxB" is not an upper bound, e.g. 4 & 3)
+            if (vals[0] < 0 || vals[2] < 0)
+                return false;
             if (minvalue)
-                *minvalue = vals[0] & vals[2];
+                *minvalue = 0;
             if (maxvalue)
-                *maxvalue = vals[1] & vals[3];
+                *maxvalue = std::min(vals[1], vals[3]);
         }
         return true;
     }
